@@ -242,8 +242,39 @@ def _cell_form(a, b, Cs):
     return opts[(5 * a + 3 * b + 11 * len(Cs) + sum(Cs)) % len(opts)]
 
 
+def rand_hamiltonian_path(rng):
+    """the ONLY connection between the endpoints is an open path through EVERY node of the graph (4-7 edges of random kinds,
+    every collider conditioned itself, nothing else): its length n-1 is the largest a simple path can have, so an integer
+    cut-off of exactly n-1 must still find it"""
+    k = rng.randint(4, 7)
+    lab = list(range(k + 1))
+    rng.shuffle(lab)
+    g = {"nodes": [], "di": [], "bi": []}
+    head = [set() for _ in range(k + 1)]
+    for i in range(k):
+        kind = rng.choice(["fwd", "fwd", "back", "back", "bi"])
+        u, w = lab[i], lab[i + 1]
+        if kind == "fwd":
+            g["di"].append([u, w]); head[i + 1].add(i)
+        elif kind == "back":
+            g["di"].append([w, u]); head[i].add(i)
+        else:
+            g["bi"].append([u, w]); head[i].add(i); head[i + 1].add(i)
+    Cs = [lab[i] for i in range(1, k) if len(head[i]) == 2]
+    rng.shuffle(g["di"]), rng.shuffle(g["bi"]), rng.shuffle(Cs)
+    a, b = (lab[0], lab[-1]) if rng.random() < 0.5 else (lab[-1], lab[0])
+    return g, a, b, Cs
+
+
 def cases(rng: random.Random, tier: str):
-    return [F.assign(c, _slots(c)) for c in _cases(rng, tier)]
+    out = []
+    for c in _cases(rng, tier):
+        force = c.pop("force_cutoff", None)
+        F.assign(c, _slots(c))
+        if force:
+            c["forms"]["cutoff"] = force
+        out.append(c)
+    return out
 
 
 def _cases(rng: random.Random, tier: str):
@@ -286,6 +317,10 @@ def _cases(rng: random.Random, tier: str):
         if r >= 0.16 and r < 0.30 or r >= 0.62 and r < 0.80:
             c["shape"] = shape
         out.append(with_names(rng, c))
+    for _ in range(80 if tier == "quick" else 500):      # one open path through every node, cut-off exactly n-1 (or n)
+        g, a, b, Cs = rand_hamiltonian_path(rng)
+        out.append({"kind": "one", "g": g, "a": a, "b": b, "C": Cs, "shape": "hamiltonian_path",
+                    "force_cutoff": rng.choice(["n-1", "n-1", "n"])})
     for _ in range(100 if tier == "quick" else 800):     # malformed
         g = G.rand_graph(rng, 1, 5, acyclic=rng.random() < 0.5)
         V = G.all_nodes(g)
